@@ -5,10 +5,15 @@ CONSTANTS
   StaticKinds <- MC_Static
   Depth = 6
   ShallowDepth = 4
+  Media = {"mem"}
+  Sizes = {"small"}
+  BigSaves = 1
   Variant = "faithful"
 INVARIANT TypeOK
 INVARIANT Stutter
 INVARIANT Idempotent
+INVARIANT SaveLoadOk
+INVARIANT MediumIndependent
 
 PROPERTY StutterStep
 CHECK_DEADLOCK FALSE
